@@ -273,6 +273,32 @@ def run(ctx):
             ctx.spec_fail('search|%s' % ('raises' if ' ERR ' in real and ' ERR ' not in spec else 'wrong-rows'),
                           'search / searchcomplement do not return exactly the rows with / without a matching cell among the cells present', case)
 
+    # ---- selectin / selectnotin with a text or bytes container (membership is substring search there), and expression strings over
+    # field names with white space at either end
+    for ci in range(120 if ctx.thorough() else 40):
+        cont = rng.choice(['ACGT', 'abc', b'abc', ''])
+        cells = (['A', 'AC', 'CG', 'GA', '', 'ACGT', 'X', 'a', 'bc', 'abc'] if isinstance(cont, str) else [b'a', b'ab', b'bc', b'', b'ca', b'abc'])
+        T = [('f', 'g')] + [(rng.choice(cells), i) for i in range(rng.choice([2, 4, 6]))]
+        compl = rng.random() < 0.4
+        for name, fn, pred in (('selectin', etl.selectin, lambda v: v in cont), ('selectnotin', etl.selectnotin, lambda v: v not in cont)):
+            got = util.run_show(lambda: fn(T, 'f', cont, complement=compl))
+            want = util.show_out([T[0]] + [r for r in T[1:] if bool(pred(r[0])) != compl])
+            ctx.case((name, 'text-container', repr(T), repr(cont), compl))
+            ctx.count('op:' + name + '(text container)')
+            if got != want:
+                ctx.spec_fail('%s|wrong-rows' % name, '%s with a text / bytes container does not select by `v in container`' % name,
+                              {'table': repr(T), 'container': repr(cont), 'complement': compl, 'real': got, 'want': want})
+        hdrw = rng.choice([(' foo', 'foo'), ('foo ', 'foo'), ('\tx', 'x'), (' ', 'y')])
+        Tw = [hdrw] + [(rng.choice([1, 2, 3]), rng.choice([1, 2, 3])) for _ in range(rng.choice([2, 4]))]
+        for j in (0, 1):
+            got = util.run_show(lambda: etl.select(Tw, '{%s} == 2' % hdrw[j]))
+            want = util.show_out([hdrw] + [r for r in Tw[1:] if r[j] == 2])
+            ctx.case(('select-expression-whitespace', repr(Tw), j))
+            ctx.count('op:select(expression, white space in names)')
+            if got != want:
+                ctx.spec_fail('select|expression|wrong-rows', 'select with an expression string does not read the field named between the braces',
+                              {'table': repr(Tw), 'expression': '{%s} == 2' % hdrw[j], 'real': got, 'want': want})
+
     # ---- positional selections of positional selections (rowslice / head / tail / skip nested two and three deep) against islice
     import itertools as _it
     for ci in range(300 if ctx.thorough() else 80):
